@@ -23,7 +23,7 @@ METHODS = [  # python name, Coq constructor, generated definition
 ]
 EXTENDED = [("update", "MUpdate", "gen_update"), ("update_extend", "MUpdateExtend", "gen_update_extend"),
             ("__ior__", "MIOr", "gen_ior")]
-ENABLE_EXTENDED = False
+ENABLE_EXTENDED = True
 if ENABLE_EXTENDED:
     METHODS = METHODS + EXTENDED
 KWARGS_OK = {"update", "update_extend"}      # methods whose **F is translated (second argument of the call)
